@@ -95,6 +95,10 @@ CHECKS["C01"] = {
         {"engine": "P", "pkg": "internal/dnsutils", "tests": [
             {"run": "TestVfC01Frames", "quick": 10000, "thorough": 400000, "shards_quick": 4, "shards_thorough": 16},
         ]},
+        {"engine": "E", "proxy": ["plain"], "tests": [
+            {"run": "TestVfC01Listeners", "quick": 1600, "thorough": 40000, "shards_quick": 8, "shards_thorough": 16, "timeout_thorough": 3400},
+            {"run": "TestVfC01UpstreamReplies", "quick": 64, "thorough": 1600, "shards_quick": 8, "shards_thorough": 16, "timeout_quick": 900, "timeout_thorough": 3400, "shrinktime": "60s"},
+        ]},
         {"engine": "F", "pkg": "internal/dnsmsg", "tests": [
             {"run": "FuzzVfC01Unpack", "fuzz": True, "quick": 1, "thorough": 300, "timeout_thorough": 900, "exclusive": True},
         ]},
